@@ -2,7 +2,7 @@
 spellings, and what real SQLite reports about them (PRAGMA table_xinfo / index_list / index_xinfo)."""
 import random, sqlite3
 
-TYPES = ["INTEGER", "integer", "Integer", "INT", "TEXT", "", "VARCHAR(10)", "NUMERIC(5,2)", "BLOB", "BIGINT", "INTEGER"]
+TYPES = ["INTEGER", "integer", "Integer", "INT", "TEXT", "", "VARCHAR(10)", "NUMERIC(5,2)", "BLOB", "BIGINT", "INTEGER", "INTEGER(8)"]
 COLLS = ["nocase", "rtrim", "binary"]
 
 
@@ -108,7 +108,7 @@ def tla_ast(ast):
             return {"k": "default", "dv": dv}
         return {"k": c["k"]}
     return {"name": ast["name"], "wr": ast["wr"],
-            "cols": [{"name": c["name"], "isint": c["isint"], "cons": [cons(k) for k in c["cons"]]} for c in ast["cols"]],
+            "cols": [{"name": c["name"], "isint": c["isint"], "type": c["type"], "cons": [cons(k) for k in c["cons"]]} for c in ast["cols"]],
             "tcons": [{"k": t["k"], "cols": [{"name": c["name"], "coll": c["coll"], "desc": c["desc"]} for c in t["cols"]]} for t in ast["tcons"]],
             "idx": [{"name": x["name"], "unique": x["unique"], "cols": [{"name": c["name"], "coll": c["coll"], "desc": c["desc"]} for c in x["cols"]]}
                     for x in ast["idx"]]}
